@@ -743,4 +743,122 @@ Qed.
 
 Lemma only_crlf_all t : forallb is_crlf t = true -> only_crlf t = true.
 Proof. apply only_crlf_fuel_all. Qed.
+
+(* ---- whole inputs ------------------------------------------------------------------------------------------- *)
+Definition segx_ok (x : lsegx) : Prop :=
+  let s := ls_seg x in
+  s <> [] /\ Forall elem_ok s /\ seg_name s <> [] /\
+  (ls_cr x = true -> seg = [LF]) /\
+  (seg = [LF] -> has_suffix (enc_seg c s) [CR] = false) /\
+  (ls_blanks x <> [] -> forallb is_crlf seg = true) /\
+  (In true (ls_blanks x) -> seg = [LF]) /\
+  (forallb is_crlf seg = true -> exists b, In b (seg_name s) /\ is_crlf b = false).
+
+Definition pieces (x : lsegx) : list bytes :=
+  map cr_if (ls_blanks x) ++ [enc_seg c (ls_seg x) ++ cr_if (ls_cr x)].
+
+Lemma flat_map_map {A B C} (f : B -> list C) (g : A -> B) l :
+  flat_map f (map g l) = flat_map (fun a => f (g a)) l.
+Proof. induction l as [|a l IH]; simpl; [reflexivity|rewrite IH; reflexivity]. Qed.
+
+Lemma enc_segx_pieces x : enc_segx c x = flat_map (fun p => p ++ seg) (pieces x).
+Proof.
+  unfold enc_segx, pieces. rewrite flat_map_app, flat_map_map. cbn [flat_map]. fold seg.
+  rewrite app_nil_r, <- !app_assoc. reflexivity.
+Qed.
+
+Lemma edi_encode_pieces segs : edi_encode c segs = flat_map (fun p => p ++ seg) (flat_map pieces segs).
+Proof.
+  unfold edi_encode. induction segs as [|x segs IH]; [reflexivity|].
+  cbn [flat_map]. rewrite flat_map_app, IH, enc_segx_pieces. reflexivity.
+Qed.
+
+Lemma pieces_sealed x : segx_ok x -> Forall (sealed Ps) (pieces x).
+Proof.
+  intros (Hne & Hel & _ & Hcr & _ & _ & Hbl & _). unfold pieces. apply Forall_app. split.
+  - apply Forall_forall. intros p Hp. apply in_map_iff in Hp as (b & <- & Hin).
+    rewrite <- (app_nil_l (cr_if b)). apply sealed_cr_if; [|apply sealed_nil].
+    intros ->. apply Hbl. exact Hin.
+  - constructor; [|constructor]. apply sealed_cr_if; [exact Hcr|]. apply sealed_seg; assumption.
+Qed.
+
+Lemma in_E b d : In b d -> In b (E d).
+Proof.
+  induction d as [|a d IH]; intro Hin; [destruct Hin|]. rewrite E_cons. apply in_or_app.
+  destruct Hin as [->|Hin]; [left|right; auto].
+  destruct (is_head H b); [apply in_or_app; right|]; left; reflexivity.
+Qed.
+
+Lemma in_join_first b z x l : In b x -> In b (join z (x :: l)).
+Proof.
+  intro Hin. destruct l as [|y l]; [exact Hin|].
+  change (join z (x :: y :: l)) with (x ++ z ++ join z (y :: l)). apply in_or_app. left. exact Hin.
+Qed.
+
+Lemma name_in_enc s b : In b (seg_name s) -> In b (enc_seg c s).
+Proof.
+  destruct s as [|[|[|d r] e] s]; try (intros []).
+  cbn [seg_name]. intro Hin. unfold enc_seg, enc_elem, enc_rep. cbn [map].
+  apply in_join_first, in_join_first, in_join_first. apply in_E. exact Hin.
+Qed.
+
+Lemma forallb_false_ex {A} (f : A -> bool) l : forallb f l = false -> exists a, In a l /\ f a = false.
+Proof.
+  induction l as [|a l IH]; [discriminate|]. cbn [forallb]. destruct (f a) eqn:Ea.
+  - intro Hf. destruct (IH Hf) as (a' & Hin & Ha'). exists a'. split; [right; exact Hin|exact Ha'].
+  - intros _. exists a. split; [left; reflexivity|exact Ea].
+Qed.
+
+Lemma read_tokens_pieces x rest : segx_ok x ->
+  read_tokens c (map (fun p => p ++ seg) (pieces x) ++ rest) =
+  bind (read_tokens c rest) (fun l => Ok (exp_seg c (ls_seg x) :: l)).
+Proof.
+  intros (Hne & Hel & Hname & Hcr & Hnocr & Hbl & Hblcr & Hnoncrlf). unfold pieces.
+  rewrite map_app, <- app_assoc.
+  assert (Hblank : forall bl, (forall b, In b bl -> In b (ls_blanks x)) -> forall tl,
+            read_tokens c (map (fun p => p ++ seg) (map cr_if bl) ++ tl) = read_tokens c tl).
+  { induction bl as [|b bl IH]; intros Hsub tl; [reflexivity|]. cbn [map app read_tokens].
+    rewrite only_crlf_all.
+    - apply IH. intros b' Hb'. apply Hsub. right. exact Hb'.
+    - rewrite forallb_app. apply andb_true_intro. split; [destruct b; reflexivity|].
+      apply Hbl. intro Hn. specialize (Hsub b (or_introl eq_refl)). rewrite Hn in Hsub. destruct Hsub. }
+  rewrite Hblank by auto. cbn [map app read_tokens].
+  rewrite only_crlf_non.
+  - rewrite <- app_assoc, read_token_enc by assumption. reflexivity.
+  - destruct (forallb is_crlf seg) eqn:Es.
+    + destruct (Hnoncrlf eq_refl) as (b & Hin & Hb). exists b. split; [|exact Hb].
+      apply in_or_app. left. apply in_or_app. left. apply name_in_enc. exact Hin.
+    + destruct (forallb_false_ex _ _ Es) as (b & Hin & Hb). exists b. split; [|exact Hb].
+      apply in_or_app. right. exact Hin.
+Qed.
+
+Lemma read_tokens_all segs : Forall segx_ok segs ->
+  read_tokens c (map (fun p => p ++ seg) (flat_map pieces segs)) =
+  Ok (map (fun x => exp_seg c (ls_seg x)) segs).
+Proof.
+  induction segs as [|x segs IH]; intro Hall; [reflexivity|].
+  inversion Hall as [|? ? Hx Hs]; subst. cbn [flat_map map]. rewrite map_app.
+  rewrite read_tokens_pieces by exact Hx.
+  match goal with |- bind ?X _ = _ =>
+    replace X with (Ok (map (fun x => exp_seg c (ls_seg x)) segs)) by (symmetry; apply IH; exact Hs) end.
+  reflexivity.
+Qed.
+
+Lemma Forall_flat_map_sealed segs : Forall segx_ok segs -> Forall (sealed Ps) (flat_map pieces segs).
+Proof.
+  induction segs as [|x segs IH]; intro Hall; [constructor|].
+  inversion Hall; subst. cbn [flat_map]. apply Forall_app. split; [apply pieces_sealed; assumption|auto].
+Qed.
+
+Lemma roundtrip segs inp : Forall segx_ok segs ->
+  (if c_ignore_crlf c then strip_crlf inp else inp) = edi_encode c segs ->
+  nv_read_all c inp = Ok (map (fun x => exp_seg c (ls_seg x)) segs).
+Proof.
+  intros Hall Hin. unfold nv_read_all.
+  assert (is_empty (c_seg c) = false) as ->.
+  { destruct Hcfg as (Hs & _). apply is_empty_false. exact Hs. }
+  rewrite Hin, edi_encode_pieces. fold seg esc.
+  rewrite scan_tokens_sealed; [|apply Forall_flat_map_sealed; exact Hall|lia].
+  cbn [bind]. apply read_tokens_all. exact Hall.
+Qed.
 End RT.
